@@ -115,12 +115,17 @@ claim("C07",
       "contract-based deductive verification (loop-nest summarisation of the real kernels to comprehensions, summation matching, z3)")
 
 claim("C08",
-      "The shape/stride arithmetic of the real conv._get_convolve_params is proved for D <= 3 with symbolic lengths, strides, channels and batch: "
-      "output length = ceil(L/s) with L = m+n-1 (full) or |m-n|+1 (valid), exact rejection conditions; the linops built on it forward identical parameters "
-      "to their adjoint functions (C01). The convolution sums themselves (inside scipy.signal) are covered by a bounded native check of the contract "
-      "(definition + both adjoints, small shapes) which is labelled bounded and not counted as proved.",
-      "scipy.signal.convolve/correlate not modelled deductively: the definition/adjoint clause is bounded-only (D<=2 (+one 3-D), lengths<=5, strides<=3).",
-      "contract-based deductive verification of the shape arithmetic (symbolic execution, z3) + bounded run-time contract check for the sums")
+      "Shape/stride arithmetic of the real conv._get_convolve_params proved for D <= 3 with symbolic lengths, strides, channels and batch (output length = "
+      "ceil(L/s), L = m+n-1 (full) or |m-n|+1 (valid), exact rejection conditions). The real _convolve, _convolve_data_adjoint and _convolve_filter_adjoint "
+      "(reshape to [B, c, ...], channel loops, stride slicing, zero-stuffing, choice of the correlation mode) are executed for D = 1 (2 thorough), symbolic "
+      "lengths and strides, 1-2 batch entries / channels, against an ASSUMED scipy.signal contract (full convolution sum, 'valid' window, correlate = convolve "
+      "with the conjugated reversed operand): convolve equals the strided multi-channel convolution sum of the property text (linear in the data and in the "
+      "filter), both adjoint functions have the conjugate coefficients (exact adjoints) and the requested shapes, including 'valid' with the filter longer "
+      "than the data. The Convolve* linops forward identical parameters (C01).",
+      "scipy.signal is compiled code outside /repo: its contract is assumed and probed (bounded) on the installed scipy; D = 3 sums and larger channel counts "
+      "are covered by the bounded native probe only.",
+      "contract-based deductive verification (symbolic execution of the real wrappers against an assumed dependency contract, one-point / divmod-inversion "
+      "elimination of the summations, z3) + bounded native probes (definition, adjoints, dependency contract)")
 
 claim("C10",
       "The real wavelet.get_wavelet_shape / fwt / iwt and linop.Wavelet / InverseWavelet are executed for symbolic 1-3-D extents, every axes choice and a symbolic "
